@@ -45,6 +45,9 @@ GATES = {
             "verdict_lines", "verdict_errors_forwarded", "out_default_body"],
     "C14": ["build_rejected_mixed_mode", "build_rejected_empty_stub", "built", "out_return"],
     "C11": [],
+    "C15": [],
+    "C16": [],
+    "C19": [],
     "C18": ["meta_perm", "meta_perm_changed_order", "meta_route", "meta_two_mocks", "meta_generic_swap",
             "meta_base_calls"],
 }
